@@ -570,6 +570,28 @@ func (c *FnCtx) mergeNormal(outs []Out) []Out {
 	if !mergeMap(func(s *State) map[string]*Term { return s.heap }, "mgh_") || !mergeMap(func(s *State) map[string]*Term { return s.ghost }, "mgg_") {
 		return outs
 	}
+	// call-site results: kept only where every merged path made the call with the same results
+	for k, v := range base.calls {
+		same := true
+		for _, o := range normal[1:] {
+			w, ok := o.st.calls[k]
+			if !ok || len(w) != len(v) {
+				same = false
+				break
+			}
+			for i := range v {
+				if w[i] != v[i] && w[i].String() != v[i].String() {
+					same = false
+				}
+			}
+		}
+		if same {
+			if m.calls == nil {
+				m.calls = map[string][]*Term{}
+			}
+			m.calls[k] = v
+		}
+	}
 	sameAlloc := true
 	for _, o := range normal[1:] {
 		if (o.st.alloc == nil) != (base.alloc == nil) {
@@ -1317,6 +1339,11 @@ func (c *FnCtx) numberLoops(body ast.Node) {
 
 func (c *FnCtx) calleeShort(call *ast.CallExpr) string {
 	switch f := ast.Unparen(call.Fun).(type) {
+	case *ast.Ident:
+		// a function of the same package
+		if fn, ok := c.info.ObjectOf(f).(*types.Func); ok && fn.Pkg() != nil {
+			return f.Name
+		}
 	case *ast.SelectorExpr:
 		if id, ok := f.X.(*ast.Ident); ok {
 			if _, isPkg := c.info.ObjectOf(id).(*types.PkgName); isPkg {
